@@ -6,8 +6,16 @@ pub use self::file_number::{FileNumber, FileTracker};
 
 const FRAME_NUM_BYTES: usize = 1 << 15;
 
+#[cfg(not(mrecordlog_verif))]
 #[cfg(not(test))]
 const NUM_BLOCKS_PER_FILE: usize = 1 << 12;
+
+#[cfg(mrecordlog_verif)]
+#[cfg(not(test))]
+const NUM_BLOCKS_PER_FILE: usize = 4;
+
+#[cfg(mrecordlog_verif)]
+pub(crate) const NUM_BLOCKS_PER_FILE_VERIF: usize = NUM_BLOCKS_PER_FILE;
 
 #[cfg(test)]
 const NUM_BLOCKS_PER_FILE: usize = 4;
